@@ -114,12 +114,22 @@ def api_run(spec):
                     obs["metrics"] = {"divergence": repr(report.divergence(sm)),
                                       "coverage": repr(report.coverage(sm)),
                                       "avg_coverage": repr(report.average_coverage(sm))}
-        except Exception as e:  # noqa  -- an exception raised by the SUT is an observation
-            obs["exc"] = _exc_info(e)
+        except (Exception, SystemExit) as e:  # noqa  -- an exception raised by the SUT is an observation
+            obs["exc"] = _exc_info(e)           # (also an exit requested from library code: argparse's error())
         finally:
             lg.removeHandler(cap)
         obs["events"] = [[lv, nm, _norm(m, top)] for lv, nm, m in cap.recs]
         out.append(obs)
+        fo = spec.get("fs_ops_after")
+        if fo and fo["index"] == len(out) - 1:
+            # the environment changes between two analyses of one interpreter: files appear / disappear
+            for op in fo["ops"]:
+                if op[0] == "write":
+                    os.makedirs(os.path.dirname(op[1]), exist_ok=True)
+                    with open(op[1], "w") as fh:
+                        fh.write(op[2])
+                elif op[0] == "unlink" and os.path.lexists(op[1]):
+                    os.unlink(op[1])
         rl = spec.get("relink_after")
         if rl and rl["index"] == len(out) - 1:
             # the environment changes between two analyses of one interpreter: a link is re-pointed
